@@ -17,7 +17,7 @@ EXTENDS Naturals, FiniteSets, TLC
 CONSTANT MaxFaults
 
 Pipes   == {"plain", "semgrep", "sast", "sast2"}
-Static  == {"badutf8", "nul", "syntax", "empty"}
+Static  == {"badutf8", "badutf8comment", "nul", "syntax", "empty"}   \* badutf8comment: the undecodable byte sits in a trailing comment only
 Dynamic == {"vanish", "raise", "raiseAtNodeEarly", "raiseAtNodeMid", "raiseAtNodeLate"}   \* the j-th visited node: 2nd, 25th, the first one after a change was recorded
 NF == 3
 NC == 2
@@ -39,7 +39,7 @@ SelectsBadFile(pipe) == pipe \in {"plain", "sast", "sast2"}
 
 MustFail(p) ==
   UNION {
-    IF x.kind \in {"badutf8", "nul", "syntax"} THEN
+    IF x.kind \in {"badutf8", "badutf8comment", "nul", "syntax"} THEN
          IF SelectsBadFile(p.pipe) THEN {<<i, x.fj>> : i \in 1..NC} ELSE {}
     ELSE IF x.kind = "empty" THEN {}                     \* an empty file is a valid (empty) module: nothing to fail
     ELSE IF x.kind = "vanish" /\ ~SelectsBadFile(p.pipe) THEN {}   \* the rule engine no longer sees the file: don't care
